@@ -372,6 +372,9 @@ def plan_C06(tier):
     items += wide("fut", ["race"], tier)
     for n in range(5, 13):
         items += fut("race", "tuple", n, p=1, st=1, sp=1, dev=2 if tier == "quick" else 3)
+    for cont in FUT_CONT["race"]:
+        items += fut("race", cont, 3, p=2, st=2, sp=1)
+        items += fut("race", cont, 2, p=3, st=2, sp=2, ip=1)
     items += never_items("fut", "race", tier) + lone_survivor_items("fut", "race", tier)
     return {"items": items, "bounds": "tuples 1..12, arrays {1,2,3,4,8,23,65}, Vecs {1..4,22..200}, FutureExt::race; never-completing siblings at every position for N<=3; all answers / wake schedules for N<=4; winner compared with logged poll order"}
 
@@ -391,6 +394,9 @@ def plan_C07(tier):
     items += wide("fut", ["race_ok"], tier)
     for n in range(5, 13):
         items += fut("race_ok", "tuple", n, p=1, st=1, sp=1, dev=2 if tier == "quick" else 3)
+    for cont in FUT_CONT["race_ok"]:
+        items += fut("race_ok", cont, 3, p=2, st=2, sp=1)
+        items += fut("race_ok", cont, 2, p=3, st=2, sp=1, ip=1)
     items += never_items("fut", "race_ok", tier) + lone_survivor_items("fut", "race_ok", tier)
     return {"items": items, "bounds": "every Ok/Err assignment for N<=4, all failure orders; never-completing siblings at every position for N<=3; arrays/Vecs from 0, tuples 1..12; wide at d<=2"}
 
@@ -516,6 +522,9 @@ def plan_C13(tier):
             wp = 1 if (l >= 3 and tier == "quick") or l >= 4 else 2
             items += co(src="stream", l=l, i=l, p=1, term="for_each", stack="l", lm=lm, wp=wp, sp=1 if l < 3 else 0, dr=1 if l < 3 else 0)
             items += co(src="vec", l=l, term="for_each", stack="l", lm=lm, wp=wp, dr=1)
+    for lm in (1, 2, 3, 0):
+        items += co(src="stream", l=3, i=3, p=1, term="for_each", stack="l", lm=lm, wp=2, sw=0)
+        items += co(src="stream", l=3, i=3, p=1, term="for_each", stack="ml", lm=lm, wp=1, sw=0, dr=1)
     for stack in ("", "m", "e", "ml", "el", "lm", "le") + (("mel", "lme", "mml") if tier != "quick" else ()):
         items += co(src="stream", l=2, i=2, p=1, term="for_each", stack=stack, lm=1, wp=1, st=1, dr=1)
         if len(stack) <= 2:
@@ -545,6 +554,8 @@ def plan_C14(tier):
                     continue
                 items += co(src="stream", l=l, i=l, p=1, term=term, stack="l" if term == "try_for_each" else None, lm=lm, wp=wp, sp=1 if l < 3 else 0, dr=1 if l < 4 else 0, sw=1 if l < 4 else 0)
                 items += co(src="vec", l=l, term=term, stack="l" if term == "try_for_each" else None, lm=lm, wp=wp, dr=1)
+        for lm in ((1, 2, 0) if term == "try_for_each" else (0,)):
+            items += co(src="stream", l=3, i=3, p=1, term=term, stack="l" if term == "try_for_each" else None, lm=lm, wp=2, sw=0)
         for stack in ("m", "e", "ml", "lm") + (("mel", "tl") if tier != "quick" else ()):
             items += co(src="stream", l=2, i=2, p=1, term=term, stack=stack, lm=1, tn=2, wp=1, dr=1)
         for wnv in (1, 2):
@@ -563,7 +574,7 @@ def plan_C14(tier):
 
 def plan_C15(tier):
     items = []
-    depth = 2 if tier == "quick" else 3
+    depth = 3  # all 85 stacks in both tiers (the thorough tier adds longer sources and more take values)
     for stack in all_stacks(depth):
         nt = stack.count("t")
         for term in ("collect", "for_each", "try_for_each"):
@@ -621,6 +632,7 @@ def plan_C19(tier):
     p = 3 if tier == "quick" else 4
     items += fut("wait", "x", 2, p=p, sp=2, st=1, ip=1)
     items += strm("wait", "x", 2, p=p if tier != "quick" else 2, i=2, sp=2, st=1, ip=1)
+    items += strm("wait", "x", 2, p=3, i=2, sp=1, st=1)
     items += fut("wait", "x", 2, p=2, sp=1, dr=1)
     items += strm("wait", "x", 2, p=2, i=3, sp=1)
     return {"items": items, "bounds": "deadline with <=3 (4 thorough) Pending answers incl. self-wake, inner future / stream scripts with P<=3, I<=3, 2 spurious polls, 1 stale wake-up, all wake schedules"}
